@@ -15,8 +15,38 @@ def _target(name):
     return getattr(m, fn)
 
 
+class Audited(dict):
+    """A mapping that counts how often the program reads it (an audit trail / read-once settings): reading it is
+    something the program does, the count is part of its final data."""
+    reads = 0
+
+    def __getitem__(self, k):
+        self.reads += 1
+        return dict.__getitem__(self, k)
+
+    def __contains__(self, k):
+        self.reads += 1
+        return dict.__contains__(self, k)
+
+    def get(self, k, d=None):
+        self.reads += 1
+        return dict.get(self, k, d)
+
+    def keys(self):
+        self.reads += 1
+        return dict.keys(self)
+
+    def items(self):
+        self.reads += 1
+        return dict.items(self)
+
+    def values(self):
+        self.reads += 1
+        return dict.values(self)
+
+
 def f(s):
-    x = 0  # TP:f_first
+    x, au = 0, Audited(k=1, j=2)  # TP:f_first
     x += 0  # TP:f_second
     x += 0  # TP:f_third
     for op in s:
@@ -37,7 +67,7 @@ def f(s):
                 HOOK(op[1])  # TP:f_cfg
         else:
             x += 1  # TP:f_plain
-    return x  # TP:f_last
+    return x + 1000 * au.reads  # TP:f_last
 
 
 def g(s):
